@@ -559,3 +559,42 @@ def _table(u, G, L):
     new = hist.new if isinstance(hist, Hist) else hist
     u.check("C17.history.appended_once_released", len(new) >= 1 and new[-1] is r and new.count(r) == 1 and "release" in r.log,
             "the redirect response is appended to history exactly once and released before the next hop")
+
+
+# ---------------------------------------------------------------------------------------------------------------
+# aiohttp.request(): the one-shot API
+
+
+@unit("C17", "oneshot.request_cookies_stay_per_request", functions=[f"{MOD}:request"])
+def oneshot_request(u: U):
+    """aiohttp.request(method, url, cookies=...): its `cookies` are cookies 'to send with the request' - per-request
+    cookies.  They must reach ClientSession._request as its `cookies` argument (which the redirect loop confines to the
+    origin of the first URL: C17.cred.request_cookies_only_to_their_origin) and must not be put into the temporary session's
+    jar, where they have no domain and are attached to every hop of a redirect chain, whatever its origin"""
+    made = []
+    calls = []
+    has_cookies = u.choose(2, "cookies_given") == 1
+    ck = {"secret": "s3"}
+
+    class _Session:
+        def __init__(self, **kw):
+            made.append(kw)
+
+        def _request(self, method, url, **kw):
+            calls.append((method, url, kw))
+            return "CORO"
+
+    f = u.load(MOD, "request", globals={"ClientSession": _Session, "TCPConnector": lambda **kw: "CONNECTOR",
+                                        "_SessionRequestContextManager": lambda coro, session: ("CM", coro, session)})
+    kw = {"cookies": ck} if has_cookies else {}
+    out = u.call(f, "GET", "http://a/", **kw)
+    u.check("C17.oneshot.total", out.ok and len(made) == 1 and len(calls) == 1, repr(out))
+    if not (out.ok and made and calls):
+        return
+    u.check("C17.oneshot.cookies_not_in_the_session_jar", made[0].get("cookies") is None,
+            "aiohttp.request(..., cookies=...) does not turn the caller's cookies into session (jar) cookies: without a "
+            "domain they would follow a redirect to any other origin",
+            known=[("F17a", has_cookies)], witness={"session_kwargs": sorted(made[0])})
+    if has_cookies:
+        u.check("C17.oneshot.cookies_are_per_request", calls[0][2].get("cookies") is ck,
+                "they are handed to _request as per-request cookies", known=[("F17a", True)])
